@@ -199,3 +199,59 @@ func VF_C16_NestedMetricOverAnotherField(k int, kind int, all int) {
 		vfAssert(vfSame(bs[0].Metric("sum"), want), "the nested sum over another field equals that sum over the bucket's documents")
 	}
 }
+
+type vfDateSrc struct{ dates [][]time.Time }
+
+func (vfDateSrc) Fields() []string { return nil }
+func (s vfDateSrc) Dates(m *search.DocumentMatch) []time.Time { return s.dates[m.Number-1] }
+
+func vfInstant(name string) (time.Time, int64, int64) {
+	sec, nsec := vfInt64(name+"-sec"), vfInt64(name+"-nsec")
+	vfAssume(sec >= -4 && sec <= 4 && nsec >= 0 && nsec <= 2)
+	return time.Unix(sec, nsec), sec, nsec
+}
+
+// C16, date range buckets: for every set of k matches with an arbitrary instant
+// each and two ranges with arbitrary bounds, every bucket counts exactly the
+// matches with start <= t < end (half open), and a nested count agrees.
+//
+// vf:harness property=C16 cases=k:1 cases.thorough=k:1..2 maxpaths=400000
+// vf:bounds k matched documents (quick 1, thorough 2) with one instant each, two date ranges; instants and range bounds are seconds in [-4,4] plus nanoseconds in [0,2] around the Unix epoch (all order patterns, ties at nanosecond granularity included)
+// vf:assume instants are built by time.Unix from arbitrary small (sec, nsec); time zones and the zero time as an open bound are outside
+func VF_C16_DateRangeBuckets(k int) {
+	src := vfDateSrc{}
+	type inst struct{ s, n int64 }
+	var ts []inst
+	for i := 0; i < k; i++ {
+		t, s, n := vfInstant("t")
+		src.dates = append(src.dates, []time.Time{t})
+		ts = append(ts, inst{s, n})
+	}
+	var bounds [4]inst
+	var bt [4]time.Time
+	for i := range bounds {
+		bt[i], bounds[i].s, bounds[i].n = vfInstant("bound")
+	}
+	agg := DateRanges(src).AddRange(NewNamedDateRange("r1", bt[0], bt[1])).AddRange(NewNamedDateRange("r2", bt[2], bt[3]))
+	aggs := search.Aggregations{"d": agg}
+	it, err := collector.NewTopNCollector(10, 0, search.SortOrder{search.SortBy(search.DocumentScore())}).Collect(context.Background(), aggs, &vfDVSearcher{r: &vfDVMatchReader{docs: make([][]float64, k)}, n: k})
+	vfAssert(err == nil, "no error")
+	for {
+		m, err := it.Next()
+		vfAssert(err == nil, "no error while iterating")
+		if m == nil {
+			break
+		}
+	}
+	bs := it.Aggregations().Buckets("d")
+	vfAssert(len(bs) == 2, "one bucket per range")
+	before := func(a, b inst) bool { return vfAny(a.s < b.s, vfAll(a.s == b.s, a.n < b.n)) }
+	for j := 0; j < 2 && j < len(bs); j++ {
+		want := uint64(0)
+		for _, t := range ts {
+			in := vfAll(!before(t, bounds[2*j]), before(t, bounds[2*j+1]))
+			want += vfIte64(in, 1, 0)
+		}
+		vfAssert(bs[j].Count() == want, "a date range bucket counts exactly the matches with start <= t < end")
+	}
+}
